@@ -75,6 +75,30 @@ def run(chk):
             chk.fail("statistics with no frames do not give the zero i-vector", dict(ctx, got=hexlist(wz)))
         pterms.append("{| pj_m := %s; pj_t := %s; pj_s := %s; pj_rtol := %s; pj_atol := %s; pj_out := %s |}" % (
             iv.ivm_term(ubm.means, T, sigma), cq.nat(t), iv.gs_term(st0), cq.fl(2.0 ** -26), cq.fl(1e-10), cq.vec(w)))
+        # covariances typed as integers (a legal way to write a sigma of ones and twos): the i-vector is that of the values
+        if i % 7 == 3:
+            sig_i = np.asarray(np.clip(np.rint(sigma * 2.0 / float(sigma.min())), 1, 9), dtype=np.int64)
+            mi_, mf_ = iv.with_params(ubm, T, sig_i.astype(float), t), iv.with_params(ubm, T, sig_i.astype(float), t)
+            mi_.sigma = sig_i           # assigned as the integer array itself
+            wi_, wf_ = np.asarray(mi_.project(st0)), np.asarray(mf_.project(st0))
+            chk.count(1, key=("integer-sigma",))
+            if not np.allclose(wi_, wf_, rtol=1e-12, atol=1e-14):
+                chk.fail("the i-vector under integer-typed covariances %s differs from the one under the same values as floats" % sig_i.tolist(), dict(ctx, sigma_int=sig_i.tolist()))
+        # one E-step, two M-steps from the same statistics object: the statistics are not consumed
+        if i % 7 == 5:
+            from bob.learn.em import ivector as iv_module
+            ma_ = iv.with_params(ubm, T, sigma, t)
+            ma_.update_sigma, ma_.variance_floor = True, 1e-10
+            acc_ = iv_module.e_step(ma_, stats)
+            snap_ = {k_: np.array(getattr(acc_, k_), copy=True) for k_ in ("nij_sigma_wij2", "fnorm_sigma_wij", "snormij", "nij") if hasattr(acc_, k_)}
+            m1_, m2_ = copy.deepcopy(ma_), copy.deepcopy(ma_)
+            iv_module.m_step(m1_, acc_)
+            iv_module.m_step(m2_, acc_)
+            chk.count(1, key=("m_step twice",))
+            if any(not np.array_equal(np.asarray(getattr(acc_, k_)), v_) for k_, v_ in snap_.items()):
+                chk.fail("ivector.m_step modifies the statistics it is given", ctx)
+            elif not (np.allclose(m1_.T, m2_.T, rtol=1e-12, atol=0) and np.allclose(m1_.sigma, m2_.sigma, rtol=1e-12, atol=0)):
+                chk.fail("two M-steps from the same E-step statistics give different extractors", ctx)
         # ---- training: marginal likelihood never decreases; floor respected; finite
         upd = (i % 4 in (1, 2))
         floor = r.choice([1e-10, 1e-10, 0.3 * float(np.min(ubm.variances))])
@@ -82,7 +106,9 @@ def run(chk):
             # make the floor bind: above the smallest covariance an unfloored first iteration produces
             probe = iv.fit_machine(ubm, stats, t, 1, True, 1e-300, r.randint(0, 10 ** 6) if False else 1)
             sig1 = np.asarray(probe.sigma)
-            if np.all(np.isfinite(sig1)) and np.all(sig1 > 0):
+            # (an over-parameterised extractor can explain all the variance: the unfloored update is then 0 up to rounding and sits on the
+            #  probe's 1e-300 floor; such a value is not a usable floor for the likelihood oracle)
+            if np.all(np.isfinite(sig1)) and np.all(sig1 > 1e-8 * float(np.min(ubm.variances))):
                 floor = float(np.median(sig1))
         if upd and zero_comp:
             # a floor ABOVE the current covariance of the component that receives no count: it must be lifted to the floor as well
@@ -147,7 +173,17 @@ def run(chk):
                 break
             prevL = L
         chk.count(1, key=("fit", C, D, t, upd, zero_comp, tiny_comp))
-        if i % 8 == 1:
+        # conditioning policy (DESIGN 9.5): an over-parameterised extractor (dim_t >= features) can explain all the variance of a component; the
+        # covariance update is then a difference of equal numbers - rounding noise, above or below the floor depending on the summation order.
+        # Such runs are not compared with the float model (the property oracles above still ran on them).
+        collapsed = False
+        if upd:
+            try:
+                fr = iv.fit_machine(ubm, stats, t, K, True, 1e-300, seed)
+                collapsed = not (np.all(np.isfinite(fr.sigma)) and np.all(np.asarray(fr.sigma) > 1e-8 * float(np.min(ubm.variances))))
+            except Exception:
+                collapsed = True
+        if i % 8 == 1 and not collapsed:
             # the same training from a Dask bag (partitions given as lists, and as one-shot generators that every iteration must re-create):
             # same extractor as from the list, hence the same non-decreasing likelihoods
             for lazy in (False, True):
@@ -162,7 +198,7 @@ def run(chk):
                     Ll = iv.marginal(np.asarray(ubm.means), np.asarray(ml.T), np.asarray(ml.sigma), stats)
                     chk.fail("3 training iterations from a Dask bag (%s partitions) give another extractor than from the list: marginal likelihood %.12g vs %.12g"
                              % ("generator" if lazy else "list", Lb, Ll), dict(ctx, update_sigma=upd, floor=floor, seed=seed, lazy_partitions=lazy))
-        if ok:
+        if ok and not collapsed:
             sc = max(1.0, float(np.abs(mk.T).max()))
             fterms.append("{| if_m := %s; if_C := %s; if_D := %s; if_t := %s; if_upd := %s; if_floor := %s; if_iters := %s; if_parts := %s; if_rtol := %s; if_atol := %s; if_T := %s; if_sigma := %s |}" % (
                 iv.ivm_term(ubm.means, T0, ubm.variances), cq.nat(C), cq.nat(D), cq.nat(t), cq.boolean(upd), cq.fl(floor), cq.nat(K),
